@@ -1,5 +1,6 @@
 import Pyxv.Model.Json
 import Pyxv.Model.Binds
+import Pyxv.Model.Headers
 /-! Driver operations for the bind slice (C05). -/
 namespace Pyxv.Binds
 open Lean Pyxv
@@ -33,6 +34,48 @@ def nhToJson : NH → Json
   | .str s => jstr s
   | .tup => Json.null
 
+/-! ### model-to-model tie with `Pyxv.Headers` (C08/C13's model of the same Python functions) -/
+
+def kvsLangs : Headers.Kvs → Option (List (Str × Str))
+  | .nil => some []
+  | .cons k (.str v) rest => (kvsLangs rest).map ((k, v) :: ·)
+  | .cons _ _ _ => none
+
+def kvsBind : Headers.Kvs → Option BindDict
+  | .nil => some []
+  | .cons k (.str v) rest => (kvsBind rest).map ((k, BVal.s v) :: ·)
+  | .cons k (.dict d) rest =>
+    match kvsLangs d, kvsBind rest with
+    | some l, some r => some ((k, BVal.d l) :: r)
+    | _, _ => none
+  | .cons _ .none _ => none
+
+/-- the row's bind dict according to `Pyxv.Headers.processRow` (on cleaned cells) -/
+def headersBind (dl : Str) (hk : List (Str × List Str)) (cells : List (Str × Str)) : Option (Option BindDict) :=
+  match Headers.processRow dl hk (cells.map fun (h, v) => (h, cleanCell v)) with
+  | .error _ => none
+  | .ok out =>
+    match out.get "bind".toList with
+    | .none => some none
+    | .dict d => (kvsBind d).map some
+    | .str _ => none
+
+/-- do the two Lean models of `process_header` / `process_row` agree on this sheet (as far as binds go)? -/
+def headersBridge (dl : Str) (headers : List Str) (rows : List (List (Str × Str))) : Json :=
+  let udc := headers.any fun h => isInfix "::".toList h
+  match headerKey headers, Headers.headerLoop udc Headers.surveyAliases Headers.surveyColumns headers [] [] with
+  | .ok key, .ok (hk, _) =>
+    if key != hk then Json.mkObj [("ok", false), ("where", "header key")]
+    else
+      let bad := rows.filter fun cells =>
+        match processRow dl key {} cells with
+        | .ok r => headersBind dl hk cells != some r.bind
+        | .error _ => false
+      Json.mkObj [("ok", bad.isEmpty), ("where", "row bind"), ("rows", rows.length), ("bad", bad.length)]
+  | .error (.dup _ _), .error (.duplicate _ _) => Json.mkObj [("ok", true), ("where", "both reject duplicate")]
+  | .error (.unsupported _), _ => Json.mkObj [("ok", true), ("where", "outside the fragment")]
+  | _, _ => Json.mkObj [("ok", false), ("where", "verdict")]
+
 def opsBinds (op : String) (j : Json) : Option (Except String Json) :=
   match op with
   | "binds.model" => some do
@@ -40,6 +83,10 @@ def opsBinds (op : String) (j : Json) : Option (Except String Json) :=
       let rows ← (← getArr j "rows").toList.mapM pairList
       let lists ← getStrList j "lists"
       pure (outToJson (formBinds (getStrD j "root" "data") (getStrD j "dl" "default") lists headers rows))
+  | "binds.headers_bridge" => some do
+      let headers ← getStrList j "headers"
+      let rows ← (← getArr j "rows").toList.mapM pairList
+      pure (headersBridge (getStrD j "dl" "default") headers rows)
   | "binds.to_snake_case" => some do
       let s ← getStr j "s"
       pure (jstr (toSnakeCase s))
